@@ -59,7 +59,7 @@ def _cells(o):
     raise Unsupported("SymStr: cannot combine with %r" % type(o))
 
 
-_ALLOWED = {"cells", "strip", "lstrip", "rstrip", "index", "find", "split", "replace", "lower", "upper",
+_ALLOWED = {"rfind", "rindex", "count", "partition", "rpartition", "isdigit", "isspace", "isalpha", "isalnum", "center", "zfill", "cells", "strip", "lstrip", "rstrip", "index", "find", "split", "replace", "lower", "upper",
             "expandtabs", "startswith", "endswith", "concrete", "value", "ljust", "rjust", "render"}
 
 
@@ -179,6 +179,67 @@ class SymStr(str):
             if all(self._m_eqcell(c[i + k], sc[k]) for k in range(n)):
                 return i
         return -1
+
+    def rfind(self, sub, start=0, end=None):
+        sc = _cells(sub)
+        n = len(sc)
+        c = self.cells if end is None else self.cells[:end]
+        for i in range(len(c) - n, start - 1, -1):
+            if all(self._m_eqcell(c[i + k], sc[k]) for k in range(n)):
+                return i
+        return -1
+
+    def rindex(self, sub, start=0, end=None):
+        i = self.rfind(sub, start, end)
+        if i < 0:
+            raise ValueError("substring not found")
+        return i
+
+    def count(self, sub):
+        n, k, start = len(_cells(sub)), 0, 0
+        if n == 0:
+            raise Unsupported("SymStr.count('')")
+        while True:
+            i = self.find(sub, start)
+            if i < 0:
+                return k
+            k += 1
+            start = i + n
+
+    def partition(self, sep):
+        i = self.find(sep)
+        if i < 0:
+            return (self, "", "")
+        return (mk(self.cells[:i]), sep, mk(self.cells[i + len(_cells(sep)):]))
+
+    def rpartition(self, sep):
+        i = self.rfind(sep)
+        if i < 0:
+            return ("", "", self)
+        return (mk(self.cells[:i]), sep, mk(self.cells[i + len(_cells(sep)):]))
+
+    def isdigit(self):
+        return len(self.cells) > 0 and all(_isd(c) or c.isdigit() for c in self.cells)
+
+    def isspace(self):
+        return len(self.cells) > 0 and all((not _isd(c)) and c.isspace() for c in self.cells)
+
+    def isalpha(self):
+        return len(self.cells) > 0 and all((not _isd(c)) and c.isalpha() for c in self.cells)
+
+    def isalnum(self):
+        return len(self.cells) > 0 and all(_isd(c) or c.isalnum() for c in self.cells)
+
+    def center(self, w, fill=" "):
+        n = max(0, w - len(self.cells))
+        left = n // 2 + (n & w & 1)
+        return mk([fill] * left + self.cells + [fill] * (n - left))
+
+    def zfill(self, w):
+        n = max(0, w - len(self.cells))
+        if self.cells and not _isd(self.cells[0]) and self.cells[0] in "+-":
+            return mk([self.cells[0]] + ["0"] * n + self.cells[1:])
+        return mk(["0"] * n + self.cells)
 
     def index(self, sub, start=0):
         i = self.find(sub, start)
